@@ -40,7 +40,7 @@ ERRNO = dict(EPERM=1, ENOENT=2, ESRCH=3, EINTR=4, EIO=5, E2BIG=7, ENOEXEC=8, EBA
              ENAMETOOLONG=36, ELOOP=40, EMAX=4095)
 ENAME = {v: k for k, v in ERRNO.items()}
 RESOURCE_ERRNOS = {ERRNO["EAGAIN"], ERRNO["ENOMEM"], ERRNO["EMFILE"], ERRNO["ENFILE"], ERRNO["EINTR"]}
-CHILD_STEP_NR = {NR["dup3"]: "dup2", NR["dup2"]: "dup2", NR["chdir"]: "chdir", NR["setuid"]: "setuid",
+CHILD_STEP_NR = {NR["dup3"]: "dup2", NR["dup2"]: "dup2", NR["fcntl"]: "dupfd", NR["dup"]: "dupfd", NR["chdir"]: "chdir", NR["setuid"]: "setuid",
                  NR["setgid"]: "setgid", NR["setpgid"]: "setpgid", NR["execve"]: "execve"}
 PARENT_STEP_NR = {NR["pipe2"]: "pipe2", NR["pipe"]: "pipe2", NR["openat"]: "open-devnull", NR["open"]: "open-devnull",
                   NR["fork"]: "fork", NR["clone"]: "fork", NR["vfork"]: "fork", NR["clone3"]: "fork",
@@ -158,7 +158,7 @@ class Shard:
 def base_case(cid):
     return dict(id=cid, kind="ok", bin=None, helper=True, code=0, args=[], env_mode="default", envs=[], cwd=None,
                 uid=None, gid=None, pg=None, io=[None, None, None], pre=0, prefail=None, inj=[], payload=b"",
-                wait2=False, trywait=False, fault=None, note="")
+                wait2=False, trywait=False, fault=None, note="", shared=None)
 
 
 def gen_config(r, sh, helper, cid, *, light=False):
@@ -192,9 +192,35 @@ def gen_config(r, sh, helper, cid, *, light=False):
     c["io"][0] = r.choice([None, "i", "n", "p", "p", "r"])
     c["io"][1] = r.choice([None, "i", "n", "p", "p", "w"])
     c["io"][2] = r.choice([None, "i", "n", "p", "p", "w"])
+    if not light and r.random() < 0.12:
+        apply_shared_stdio(c, r.choice(sorted(SHARED_STDIO)))
     c["pre"] = r.choice([0, 0, 0, 1, 2, 3])
     c["wait2"] = r.random() < 0.2
     c["trywait"] = r.random() < 0.2
+    return c
+
+
+SHARED_STDIO = {
+    # name: (stdin, stdout, stderr)   "s<k>" = the same descriptor as stream k, ("x", n) = the caller's own descriptor n
+    "out+err-one-file": (None, "w", ("s", 1)),                 # > log 2>&1
+    "in+out+err-one-file": ("b", ("s", 0), ("s", 0)),
+    "in+out-one-file": ("b", ("s", 0), None),
+    "err-to-own-stdout": (None, None, ("x", 1)),               # 2>&1 with inherited stdout
+    "out-to-own-stderr": (None, ("x", 2), None),               # 1>&2
+    "out-and-err-to-own-stdout": (None, ("x", 1), ("x", 1)),
+    "own-identity": (("x", 0), ("x", 1), ("x", 2)),
+    "stdin-own-0": (("x", 0), None, None),
+    "stdout-own-1": (None, ("x", 1), "p"),
+    "stderr-own-2": (None, "p", ("x", 2)),
+    "crossed-out-err": (None, ("x", 2), ("x", 1)),
+    "pipe-in-err-to-own-stdout": ("p", "p", ("x", 1)),
+}
+
+
+def apply_shared_stdio(c, name):
+    c["io"] = list(SHARED_STDIO[name])
+    c["note"] = (c["note"] + " " if c["note"] else "") + "stdio:" + name
+    c["shared"] = name
     return c
 
 
@@ -213,6 +239,12 @@ def materialize(c, sh):
             open(p, "wb").close()
             os.chmod(p, 0o666)
             c["io"][s] = ("w", p)
+        elif m == "b":
+            p = os.path.join(sh.bdir, b"rw.%d" % cid)
+            with open(p, "wb") as f:
+                f.write(c["payload"])
+            os.chmod(p, 0o666)
+            c["io"][s] = ("b", p)
 
 
 def case_line(c):
@@ -230,7 +262,7 @@ def case_line(c):
         if m is None:
             continue
         if isinstance(m, tuple):
-            t.append("%s=%s%s" % (k, m[0], hx(m[1]) if m[0] in "rw" else str(m[1])))
+            t.append("%s=%s%s" % (k, m[0], hx(m[1]) if m[0] in "rwb" else str(m[1])))
         else:
             t.append("%s=%s" % (k, m))
     if c["pre"]:
@@ -256,12 +288,12 @@ def ser_case(c, sh):
         if b.startswith(sh.bdir + b"/"):
             return {"rel": hx(b[len(sh.bdir) + 1:])}
         return {"abs": hx(b)}
-    o = {k: c[k] for k in ("id", "kind", "helper", "code", "env_mode", "uid", "gid", "pg", "pre", "wait2", "trywait", "note")}
+    o = {k: c[k] for k in ("id", "kind", "helper", "code", "env_mode", "uid", "gid", "pg", "pre", "wait2", "trywait", "note", "shared")}
     o["bin"], o["cwd"] = path(c["bin"]), path(c["cwd"])
     o["args"] = [hx(a) for a in c["args"]]
     o["envs"] = [hx(a) for a in c["envs"]]
     o["payload"] = hx(c["payload"])
-    o["io"] = [m if not isinstance(m, tuple) else (m[0] if m[0] in "rw" else ["x", m[1]]) for m in c["io"]]
+    o["io"] = [m if not isinstance(m, tuple) else (m[0] if m[0] in "rwb" else [m[0], m[1]]) for m in c["io"]]
     o["prefail"] = list(c["prefail"]) if c["prefail"] else None
     o["inj"] = [list(j) for j in c["inj"]]
     o["fault"] = list(c["fault"]) if c["fault"] else None
@@ -274,7 +306,7 @@ def deser_case(o, sh, helper):
             return None
         return os.path.join(sh.bdir, bytes.fromhex(v["rel"])) if "rel" in v else bytes.fromhex(v["abs"])
     c = base_case(o["id"])
-    for k in ("kind", "helper", "code", "env_mode", "uid", "gid", "pg", "pre", "wait2", "trywait", "note"):
+    for k in ("kind", "helper", "code", "env_mode", "uid", "gid", "pg", "pre", "wait2", "trywait", "note", "shared"):
         c[k] = o[k]
     c["bin"], c["cwd"] = path(o["bin"]), path(o["cwd"])
     c["args"] = [bytes.fromhex(a) for a in o["args"]]
@@ -355,6 +387,8 @@ def gen_injections(r, sh, helper, next_id, thorough):
                 for _ in range(reps):
                     c = gen_config(r, sh, helper, next_id(), light=not thorough or r.random() < 0.7)
                     c["kind"] = "inject"
+                    if c.get("shared"):
+                        c["io"], c["shared"] = [None, r.choice([None, "n", "p"]), r.choice([None, "n", "p"])], None
                     e = ERRNO[en]
                     # make the configuration reach the step
                     if c["uid"] not in (None, 0) and step != "setuid":
@@ -408,6 +442,27 @@ def gen_injections(r, sh, helper, next_id, thorough):
                     c["fault"] = (step, pos, e)
                     c["note"] = "inject %s#%d %s" % (step, pos, en)
                     out.append(c)
+    # an interrupted sync-pipe read (once / twice / three times in a row) must be retried: expected result Ok
+    for count in (1, 2, 3):
+        for _ in range(3 if thorough else 2):
+            c = gen_config(r, sh, helper, next_id(), light=True)
+            c["kind"] = "inject"
+            if c["io"][0] == "p":
+                c["io"][0] = r.choice([None, "n", "r"])
+            c["inj"] = [(0, NR["read"], 0, -ERRNO["EINTR"], count)]
+            c["fault"] = ("sync-pipe-read", 0, ERRNO["EINTR"])
+            c["note"] = "inject sync-pipe-read EINTR x%d" % count
+            out.append(c)
+    return out
+
+
+def gen_shared_stdio(r, sh, helper, next_id, reps):
+    out = []
+    for name in sorted(SHARED_STDIO):
+        for _ in range(reps):
+            c = gen_config(r, sh, helper, next_id(), light=True)
+            c["payload"] = bytes(r.randrange(256) for _ in range(r.choice([0, 5, 300])))
+            out.append(apply_shared_stdio(c, name))
     return out
 
 
@@ -728,6 +783,18 @@ class Judge:
                 if ch["exec_seq"] is None and (ch["exit"] is None or ch.get("exit_seq", 1 << 62) > ret_seq):
                     # still there when the caller got its error: must at least never run probe code (checked above)
                     ck.count("child_alive_at_error_return")
+            if first is None and soft is not None and soft[2] == "sync-pipe-read":
+                # an interrupted read is not a failed step: the documented retry is required
+                if kind == 0 and code == ERRNO["EINTR"]:
+                    self.viol("C13/sync-pipe-read/eintr-not-retried", c, co,
+                              "the read of the CLOEXEC sync pipe was interrupted (EINTR) and spawn returned Err(EINTR) although no step of "
+                              "the spawn failed%s" % ("; the child exec'd the program" if any(ch["exec_seq"] for _, ch in kids) else ""))
+                else:
+                    self.viol("C13/sync-pipe-read/eintr-not-retried", c, co,
+                              "the read of the CLOEXEC sync pipe was interrupted (EINTR) and spawn returned an error (kind=%d code=%d) although "
+                              "no step of the spawn failed" % (kind, code))
+                ck.note_distinct("%s/defect/eintr-not-retried" % self.fl)
+                return "judged"
             if first is None and soft is not None:
                 first = soft
             if first is None:
@@ -890,7 +957,7 @@ class Judge:
                     why = "identity %r != the descriptor handed over %r" % (ident, want)
             if why:
                 bad.append(("child/stdio-mismatch/%s-%s" % (STREAM[s], mode), "%s (%s): %s" % (STREAM[s], mode, why)))
-            if s == 0 and mode in ("pipe", "rawfd"):
+            if s == 0 and (m == "p" or (isinstance(m, tuple) and m[0] in "rb")):
                 payload_in = c["payload"]
         # data round trip
         if d.get("in_data") != payload_in or d.get("in_ret", -1) < 0:
@@ -901,29 +968,59 @@ class Judge:
             if not w or w[0][2] != len(c["payload"]):
                 bad.append(("child/stdin-pipe-write", "writing %d bytes into the child's stdin pipe: %r" % (len(c["payload"]), w)))
         seen = d.get("in_data", b"")
+        # where each output stream is configured to end up: ("pipe", s) | ("file", path, prefix) | ("caller", n)
+        def sink(s):
+            m = c["io"][s]
+            hops = 0
+            while isinstance(m, tuple) and m[0] == "s" and hops < 3:
+                m = c["io"][m[1]]
+                hops += 1
+            if m == "p":
+                return ("pipe", s)
+            if isinstance(m, tuple) and m[0] in "wb":
+                return ("file", m[1])
+            if isinstance(m, tuple) and m[0] == "x":
+                return ("caller", m[1])
+            if m in (None, "i"):
+                return ("caller", s)
+            return ("null",)
+        file_expect = {}     # path -> expected content
+        caller_expect = {1: [], 2: []}
+        for s0 in range(3):
+            m = c["io"][s0]
+            if isinstance(m, tuple) and m[0] == "b":
+                file_expect[m[1]] = c["payload"]      # read to its end by the helper before it writes
         for s, tag in ((1, b"O"), (2, b"E")):
             msg = tag + b"%d:" % cid + (hx(seen).encode() if seen else b"-") + b"\n"
-            m = c["io"][s]
             w = d.get("out" if s == 1 else "err")
             if not w or w[0] != w[2]:
                 bad.append(("child/%s-unwritable" % STREAM[s], "helper's write to %s: %r" % (STREAM[s], w)))
                 continue
-            if m == "p":
+            sk = sink(s)
+            if sk[0] == "pipe":
                 if pipe_data.get(s) != msg:
                     bad.append(("child/pipe-roundtrip/%s" % STREAM[s], "caller read %r... from the %s pipe, helper wrote %r..."
                                 % ((pipe_data.get(s) or b"")[:40], STREAM[s], msg[:40])))
-            elif isinstance(m, tuple) and m[0] == "w":
-                try:
-                    with open(m[1], "rb") as fh:
-                        got = fh.read()
-                except OSError:
-                    got = None
-                if got != msg:
-                    bad.append(("child/rawfd-output/%s" % STREAM[s], "file behind RawFd holds %r..., helper wrote %r..." % ((got or b"")[:40], msg[:40])))
-            elif m in (None, "i"):
-                lines = self.out_lines if s == 1 else self.err_lines
+            elif sk[0] == "file":
+                file_expect[sk[1]] = file_expect.get(sk[1], b"") + msg
+            elif sk[0] == "caller" and sk[1] in (1, 2):
+                caller_expect[sk[1]].append((s, msg))
+        for path, want in file_expect.items():
+            try:
+                with open(path, "rb") as fh:
+                    got = fh.read()
+            except OSError:
+                got = None
+            if got != want:
+                bad.append(("child/rawfd-output", "file behind RawFd holds %r... (%s bytes), expected %r... (%d bytes)"
+                            % ((got or b"")[:40], None if got is None else len(got), want[:40], len(want))))
+        for n, msgs in caller_expect.items():
+            lines = self.out_lines if n == 1 else self.err_lines
+            for s, msg in msgs:
                 if lines.count(msg[:-1]) != 1:
-                    bad.append(("child/inherit-output/%s" % STREAM[s], "helper's line did not arrive exactly once on the caller's %s" % STREAM[s]))
+                    mode = "inherit" if c["io"][s] in (None, "i") else "rawfd"
+                    bad.append(("child/%s-output/%s" % (mode, STREAM[s]), "the helper's %s line did not arrive exactly once on the caller's %s"
+                                % (STREAM[s], STREAM[n])))
         # pre-exec closures: each once, in order, in the child, before exec
         pre = [e for e in ch["ev"] if e.k == "M" and e.kind == 3 and e.a[0] == K_PREEXEC and e.a[1] == cid]
         if [e.a[2] for e in pre] != list(range(c["pre"])) or any(e.seq > ch["exec_seq"] for e in pre):
@@ -967,7 +1064,7 @@ class Judge:
                 ck.note_distinct("%s/defect/%s" % (self.fl, sig))
             return "judged"
         # held on this case
-        iok = "".join("-" if m is None else (m if isinstance(m, str) else m[0]) for m in c["io"])
+        iok = "".join("-" if m is None else (m if isinstance(m, str) else (m[0] + str(m[1]) if m[0] in "sx" else m[0])) for m in c["io"])
         ck.note_distinct("%s/ok/stdio-%s" % (okc, iok))
         ck.note_distinct("%s/ok/env-%s-%s/args-%s" % (self.fl, c["env_mode"] if c["env_mode"] == "provided" else ("inherit" if self.start else "none"),
                                                       nargs_class(len(c["envs"])), nargs_class(len(c["args"]))))
@@ -1072,6 +1169,11 @@ def _run(ck, quick, sysmon, helper_src, flavours, root, replay):
             idx += 1
             sh.probe_env = probe_env_for(r)
             sh.cases += gen_real_failures(r, sh, helper_b, next_id, not quick)
+            shards.append(sh)
+            sh = Shard(root, fl, idx)
+            idx += 1
+            sh.probe_env = probe_env_for(r)
+            sh.cases += gen_shared_stdio(r, sh, helper_b, next_id, 2 if quick else 6)
             shards.append(sh)
             first = Shard(root, fl, idx)
             idx += 1
